@@ -24,9 +24,15 @@ const L_COMMANDS: &str = "C03.bounded.commands_actioned_when_disabled";
 /// dispatch id C01D: the same histories, reported under C01's label and only as far as the TRACKED SET is concerned
 /// ("an order becomes tracked when a request for it is SENT" - not when it failed to send, was refused or was merely asked for)
 const L_C01_DISPATCH: &str = "C01.bounded.tracked_exactly_when_a_request_was_sent";
-static FOR_C01: std::sync::atomic::AtomicBool = std::sync::atomic::AtomicBool::new(false);
-fn for_c01() -> bool { FOR_C01.load(std::sync::atomic::Ordering::Relaxed) }
-pub fn run_dispatch_for_c01(seed: u64, thorough: bool) -> u64 { FOR_C01.store(true, std::sync::atomic::Ordering::Relaxed); run(seed, thorough) }
+/// dispatch id C02P: the same histories, reported under C02's label: a position-closed record is on the audit of exactly the fills that take
+/// the net quantity to or across zero - whatever else the same event triggers (a strategy tick that issues orders, say)
+const L_C02_EXIT: &str = "C02.bounded.position_closed_record_emitted_on_the_audit_of_the_closing_fill";
+/// 0: C03, 1: C01D, 2: C02P
+static MODE: std::sync::atomic::AtomicU8 = std::sync::atomic::AtomicU8::new(0);
+fn mode() -> u8 { MODE.load(std::sync::atomic::Ordering::Relaxed) }
+fn own_label(label: &str) -> bool { match mode() { 1 => label == L_C01_DISPATCH, 2 => label == L_C02_EXIT, _ => label != L_C01_DISPATCH && label != L_C02_EXIT } }
+pub fn run_dispatch_for_c01(seed: u64, thorough: bool) -> u64 { MODE.store(1, std::sync::atomic::Ordering::Relaxed); run(seed, thorough) }
+pub fn run_process_for_c02(seed: u64, thorough: bool) -> u64 { MODE.store(2, std::sync::atomic::Ordering::Relaxed); run(seed, thorough) }
 const L_HOOK: &str = "C03.bounded.on_disabled_hook_runs_on_the_transition_only";
 const L_REENABLE: &str = "C03.bounded.reenable_generates_on_that_event";
 
@@ -56,7 +62,7 @@ pub fn sync_diff(lay: &Layout, m: &Model, s: &State) -> Option<String> {
 struct Run<'a> { seen: &'a mut HashSet<&'static str>, desc: &'a dyn Fn(usize) -> String, failed: bool }
 impl Run<'_> {
     fn fail(&mut self, label: &'static str, k: usize, observed: String, expected: String) {
-        if for_c01() != (label == L_C01_DISPATCH) { return; }
+        if !own_label(label) { return; }
         self.failed = true;
         if self.seen.insert(label) { report(label, (self.desc)(k), observed, expected); }
     }
@@ -95,7 +101,15 @@ pub fn run_scenario<R: RiskManager<State = State>>(rig: &mut Rig<R>, links: [Lin
         let delivered = delivered_reqs(&rig.drain());
         let rep = parse_audit(&audit);
 
+        // (net position of the filled instrument before the event, in tenths; the reference model nets the fills)
+        let closing_fill = match ev { Ev::Fill { i, buy, qty, .. } => { let before = model.pos[*i]; let signed = if *buy { *qty } else { -*qty }; Some(before != 0 && before.signum() != signed.signum() && signed.abs() >= before.abs()) } _ => None };
         let cmd_exps = model.apply_event(lay, ev);
+        if let Some(closes) = closing_fill {
+            let exits = rep.outputs.iter().filter(|o| **o == "position_exit").count();
+            if exits != closes as usize {
+                run.fail(L_C02_EXIT, k, format!("{exits} position-closed record(s) on the audit of this fill; outputs on the record: {:?}", rep.outputs), format!("{} (the fill {} the net quantity to or across zero)", closes as usize, if closes { "takes" } else { "does not take" }));
+            }
+        }
         let want_algo = model.expects_algo(ev, &cmd_exps);
         if !model.trading && (consulted || rep.outputs.contains(&"algo")) {
             run.fail(L_DISABLED, k, format!("generate_algo_orders consulted={consulted}, outputs={:?}", rep.outputs), "strategy not consulted while TradingState::Disabled".into());
